@@ -43,6 +43,33 @@ def random_large(rng, n):
     return out
 
 
+def boundary_families(rng):
+    """versions that differ in exactly one field, over boundary values of that field"""
+    vals = [0, 1, 2, 9, 10, 2 ** 31 - 1, 2 ** 31, 2 ** 32 - 2, 2 ** 32 - 1]
+    texts = ["a", "a1", "a2", "a10", "a22", "az", "b1", "b", "build10", "rc2", "el10", "fc9", "z", "zz", "0a", "1a", "10a", "a0"]
+    out = []
+    bases = [dict(epoch=0, release=(1, 0), pre=None, post=None, dev=None, local=None),
+             dict(epoch=1, release=(2, 3, 4), pre=("b", 2), post=5, dev=6, local=("x", 7)),
+             dict(epoch=0, release=(0,), pre=("rc", 0), post=None, dev=0, local=None)]
+    for b in bases:
+        for v in vals:
+            out.append(dict(b, epoch=v))
+            out.append(dict(b, release=b["release"][:-1] + (v,)))
+            out.append(dict(b, release=(v,) + b["release"][1:]))
+            for lab in ("a", "b", "rc"):
+                out.append(dict(b, pre=(lab, v)))
+            out.append(dict(b, post=v))
+            out.append(dict(b, dev=v))
+            out.append(dict(b, local=(v,)))
+            out.append(dict(b, local=("x", v)))
+            out.append(dict(b, local=(v, "x")))
+        for t in texts:
+            out.append(dict(b, local=(t,)))
+            out.append(dict(b, local=("x", t)))
+            out.append(dict(b, local=(t, 1)))
+    return out
+
+
 def key(s):
     return ref.key_zerv(ref.parse(s))
 
@@ -90,6 +117,8 @@ def run(ctx):
     for v in large:
         lstr.append(ref.normal(v))
         lstr.append(ref.spell(v, rng))
+    for v in boundary_families(rng):
+        lstr.append(ref.normal(v))
     lstr = sorted(set(lstr))
     strs2, bad2 = cmpcommon.all_pairs(ctx, "pep440", lstr, key, "random_large")
     name = {"L": "Less", "E": "Equal", "G": "Greater", "!": "inconsistent operators", "?": "unparsable"}
